@@ -71,4 +71,6 @@ def run(ctx):
     ns = len(ctx.suite_names)
     rep.floor('R14.1', 'evaluation terms', n_eval, ns * (1 + 8))
     rep.floor('R14.3', 'blind call sites', n_blind, 2 * ns)
+    from rules import profile
+    profile.check(ctx, rep, 'R14.P', ['sreg_start', 'slog_start', 'creg_start', 'clog_start', 'creg_finish', 'clog_finish'])
     return rep
